@@ -1401,7 +1401,7 @@ def grid_section(ck):
             continue
         rep["stat"] = got[0].tolist()
         rep["flat_stat_reshaped"] = flat[0].reshape(-1).tolist()
-        if any(g.shape != shape for g in got):
+        if any(g.shape != f.shape[:-1] + shape for g, f in zip(got, flat)):
             ck.fail("grid/result-shape/labs/%s/%s" % (tname, cls), "labs %s stat/pvalue/zscore shapes %s on a voxel array of shape %s" % (
                 typ, [g.shape for g in got], shape), rep)
             continue
@@ -1477,7 +1477,7 @@ def grid_section(ck):
                 continue
             rep["stat"] = got[0].tolist()
             rep["flat_stat"] = flat[0].tolist()
-            if any(g.shape != shape for g in got):
+            if any(g.shape != f.shape[:-1] + shape for g, f in zip(got, flat)):
                 ck.fail("grid/result-shape/labs-glm/%s/%s" % (tname, cls), "labs glm %s contrast: result shapes %s for voxel array shape %s" % (
                     typ, [g.shape for g in got], shape), rep)
                 continue
